@@ -9,7 +9,7 @@ def fragFromValue : Frag → Bool | .valueStr _ => true | _ => false
 /-- request: {schema, value, regex, formats}; reply: the model's reports with reason fragments -/
 def handle (j : Json) : Json :=
   let sj := getD j "schema" (Json.mkObj [])
-  let s := toS sj
+  let s := caseSchema j
   let v := toJ (getD j "value" Json.null)
   let env := envOf j
   let t := events env s v
